@@ -234,6 +234,35 @@ type ConsFamilies struct {
 	Rounds []RoundCfg
 }
 
+// OnlyForks drops every family without fork events (used by the cheater-list check).
+func (f ConsFamilies) OnlyForks() ConsFamilies {
+	var g ConsFamilies
+	for _, a := range f.All {
+		if a.ForkBudget > 0 {
+			g.All = append(g.All, a)
+		}
+	}
+	for _, r := range f.Rounds {
+		if r.Fork {
+			g.Rounds = append(g.Rounds, r)
+		}
+	}
+	return g
+}
+
+// Light drops the two heaviest quick families (kept by C10/C01, which are sensitive to them).
+func (f ConsFamilies) Light() ConsFamilies {
+	var g ConsFamilies
+	g.All = f.All
+	for _, r := range f.Rounds {
+		if r.Dev >= 2 {
+			continue
+		}
+		g.Rounds = append(g.Rounds, r)
+	}
+	return g
+}
+
 func DefaultConsFamilies(quick bool, byzantine bool) ConsFamilies {
 	var f ConsFamilies
 	all := func(w WeightVec, n, forks int, prev bool) {
